@@ -167,6 +167,12 @@ def llrp_scenarios(seed, thorough):
         add(name="shutdown-after", cur=1, max=2, ka_tick_us=300, callers=3, reqs=4, end="shutdown")
         add(name="peer-close", cur=2, max=2, ka_tick_us=150, callers=6, reqs=20, end="peerclose")
         add(name="timeout-client", cur=1, max=1, timeout_ms=50, ka_tick_us=500, callers=2, reqs=3)
+        # payload paths: replies at / beyond the buffering limit arriving in pieces (the read loop's streaming and drain vs the
+        # awaiting caller), with and without a handler that reads all / part / nothing of the same payload, traffic behind them
+        add(name="big-replies", cur=2, max=2, ka_tick_us=400, callers=3, reqs=4, big_pct=50, pieces=3)
+        add(name="big-replies-handler-all", version=1, ka_tick_us=400, callers=3, reqs=4, big_pct=50, pieces=2, handler="all")
+        add(name="big-replies-handler-part", cur=2, max=2, callers=2, reqs=4, big_pct=60, pieces=4, handler="part", cancel_pct=20)
+        add(name="small-replies-handler-none", version=1, ka_tick_us=300, callers=4, reqs=6, handler="none", cancel_pct=20)
         # negotiation failure paths; with and without the default logger
         for deflog in (True, False):
             add(name="negfail-gsv-err", deflog=deflog, gsv="err", ka_before=1, queued=1, end="none")
